@@ -11,7 +11,8 @@ FRESH_CALLS = {'list', 'dict', 'set', 'tuple', 'sorted', 'str', 'len', 'int', 'b
 class Derived:
     """Derived-name analysis for one function.  `is_source(expr)` marks seed expressions."""
 
-    def __init__(self, func, is_source, extra_seeds=()):
+    def __init__(self, func, is_source, extra_seeds=(), elements=True):
+        self.elements = elements      # False: elements of a tracked container are immutable values (e.g. strings), only the container itself is tracked
         self.func = func
         self.is_source = is_source
         self.names = set(extra_seeds)        # local names that may alias (a part of) the tracked object
@@ -28,14 +29,14 @@ class Derived:
                     changed |= self._bind(n.target, n.value)
                 elif isinstance(n, (ast.For, ast.comprehension)):
                     it = n.iter
-                    if self.derived(it):
+                    if self.elements and self.derived(it):
                         for t in ast.walk(n.target):
                             if isinstance(t, ast.Name) and t.id not in self.names:
                                 self.names.add(t.id)
                                 changed = True
                 elif isinstance(n, ast.Call) and isinstance(n.func, ast.Attribute) and n.func.attr in ('append', 'extend', 'insert', 'add', 'update', 'setdefault'):
                     # container.append(derived) makes the container a holder
-                    if any(self.derived(a) for a in n.args):
+                    if self.elements and any(self.derived(a) for a in n.args):
                         c = attr_chain(n.func.value)
                         if c and not self.derived(n.func.value):
                             changed |= self._add_holder(c, None)
@@ -102,6 +103,8 @@ class Derived:
                 return True
             return self.derived(e.value)
         if isinstance(e, ast.Subscript):
+            if not self.elements:
+                return False
             if isinstance(e.slice, ast.Slice):
                 return self.derived(e.value)
             return self.derived(e.value) or self._holder(e.value, unparse(e.slice) if isinstance(e.slice, ast.Constant) else None)
